@@ -84,6 +84,7 @@ type verifRawConn struct {
 	hold   chan struct{} // if set: the first WriteTo stays inside the socket until hold is closed
 	inside chan struct{} // closed when that WriteTo has entered the socket
 	held   bool
+	short  int // if > 0: the first WriteTo reports that many bytes written (and no error)
 }
 
 var errVerifNoMoreFrames = errors.New("verif: no more frames")
@@ -103,6 +104,9 @@ func (c *verifRawConn) WriteTo(b []byte, a net.Addr) (int, error) {
 		<-c.hold // the frame is still the caller's while the socket works on it
 	}
 	c.sent = append(c.sent, append([]byte(nil), b...)) // what leaves is what b holds when the socket is done
+	if c.short > 0 && len(c.sent) == 1 && c.short < len(b) {
+		return c.short, nil
+	}
 	return len(b), nil
 }
 func (c *verifRawConn) Close() error                       { return nil }
@@ -404,6 +408,33 @@ func VerifC18WriteRetarget(n int) {
 		ck := uint64(f[26])<<8 | uint64(f[27])
 		total := verifWordSum(f[12:20]) + 17 + uint64(8+n) + verifWordSum(f[20:28]) + verifWordSum(f[28:])
 		verifAssert(verifOr(ck == 0, verifAnd(total%65535 == 0, total != 0)), "udp-checksum-verifies")
+	}
+	verifReach("end")
+}
+
+// VerifC18WriteShort: the raw socket reports a short count (short bytes, no error) for the first
+// frame — a packet socket sends a frame whole or not at all, the count is only a report. Two
+// datagrams are written: exactly two frames reach the socket, each of them well formed (a writer
+// that "finished" the first frame by sending its remainder would emit a third thing that is no
+// IPv4 frame at all).
+func VerifC18WriteShort(n, short int) {
+	p1, p2 := verifBytes("payload", n), verifBytes("payload", n)
+	srcIP, wsrc := verifAddr4("src", 0)
+	dstIP, wdst := verifAddr4("dst", 0)
+	sport, dport := verifU16("sport"), verifU16("dport")
+	raw := &verifRawConn{short: short}
+	conn := NewBroadcastUDPConn(raw, &net.UDPAddr{IP: srcIP, Port: int(sport)})
+	dest := &net.UDPAddr{IP: dstIP, Port: int(dport)}
+	verifOverride("github.com/insomniacslk/dhcp/dhcpv4/nclient4.checksum", verifChecksumContract)
+	_, e1 := conn.WriteTo(p1, dest)
+	_, e2 := conn.WriteTo(p2, dest)
+	verifOverride("github.com/insomniacslk/dhcp/dhcpv4/nclient4.checksum", nil)
+	verifAssert(e2 == nil, "write-ok")
+	_ = e1 // what the writer reports for the short count is not specified
+	verifAssert(len(raw.sent) == 2, "one-frame-per-datagram")
+	if len(raw.sent) == 2 {
+		verifC18FrameOK(raw.sent[0], p1, wsrc, wdst, sport, dport)
+		verifC18FrameOK(raw.sent[1], p2, wsrc, wdst, sport, dport)
 	}
 	verifReach("end")
 }
